@@ -495,6 +495,8 @@ class AppClock(Clock, metaclass=MetaAppClock):
             if not hasattr(item, '__awake__'):
                 item = fn.Function(item)
             item._clock = cls
+            if delta is None:  # As Scheduler.sched.
+                delta = 0.0
             seconds = _libsc3.main.current_tt._seconds
             seconds += delta
             if seconds == float('inf'):
